@@ -30,12 +30,12 @@ func (c13) Assumptions() []string {
 }
 
 func (c13) Batches(tier string, seed uint64) []core.Batch {
-	return spread("ar", 16, tierN(tier, 900, 6000))
+	return append(spread("ar", 16, tierN(tier, 900, 6000)), core.Batch{Name: "huge"})
 }
 
 func (c13) Mandatory(tier string) []string {
 	return []string{"members:0", "members:1", "members:2-4", "members:5+", "size:0", "size:odd", "last-odd:padded", "last-odd:unpadded", "name:16-bytes", "name:slash-terminated",
-		"blank-numeric-fields", "zero-padded-numeric-fields", "member-after-odd", "pad-byte:not-newline-then-member", "data:magic-inside", "delivery:bytes.Reader", "delivery:os.File", "delivery:exact-EOF-ReaderAt", "delivery:bytes.Reader:direct-after-read", "delivery:os.File:direct-after-read", "delivery:SectionReader:direct", "name:inner-slash",
+		"blank-numeric-fields", "zero-padded-numeric-fields", "member-after-odd", "pad-byte:not-newline-then-member", "data:magic-inside", "delivery:bytes.Reader", "delivery:os.File", "delivery:exact-EOF-ReaderAt", "delivery:bytes.Reader:direct-after-read", "delivery:os.File:direct-after-read", "delivery:SectionReader:direct", "name:inner-slash", "size:>=2GiB", "size:>=4GiB", "size:>=9GiB",
 		"read:immediately", "read:after-advance", "read:continued-after-advance", "read:reseek", "read:ReadAt"}
 }
 
@@ -328,6 +328,13 @@ func firstDiff(a, b []byte) int {
 }
 
 func (p c13) RunBatch(t *core.T, b core.Batch) {
+	if b.Name == "huge" {
+		for _, sz := range []int64{1 << 31, 1<<31 + 1, 1<<32 + 2, 1<<32 + 7, 9999999999} {
+			sz := sz
+			t.Case("huge", []byte(fmt.Sprint(sz)), func(c *core.C) { p.hugeCase(c, sz) })
+		}
+		return
+	}
 	r := t.Rand("ar", fmt.Sprint(b.Arg))
 	for i := 0; i < b.N; i++ {
 		cs := c13Case{Members: genArMembers(r, 8), PadLast: r.Bool(), Delivery: r.Pick([]string{"bytes.Reader", "bytes.Reader", "os.File", "exact-EOF-ReaderAt", "bytes.Reader:direct-after-read", "os.File:direct-after-read", "SectionReader:direct"}), Seed: r.U64()}
@@ -341,6 +348,13 @@ func (p c13) RunBatch(t *core.T, b core.Batch) {
 }
 
 func (p c13) RunCase(t *core.T, kind string, input []byte) {
+	if kind == "huge" {
+		var sz int64
+		if _, err := fmt.Sscanf(string(input), "%d", &sz); err == nil && sz > 0 && sz <= 9999999999 {
+			t.Case(kind, input, func(c *core.C) { p.hugeCase(c, sz) })
+		}
+		return
+	}
 	var cs c13Case
 	if json.Unmarshal(input, &cs) == nil {
 		t.Case(kind, input, func(c *core.C) { p.run(c, t, cs) })
